@@ -127,6 +127,29 @@ def runBounded (d : Dinic) (fuel : Nat) (bound : Int) : Option (Dinic × Int) :=
     | some (d', flow, true) => some ({ d' with maxFlow := flow }, bound)
     | some (d', flow, false) => some ({ d' with maxFlow := flow, finished := true }, min bound flow)
 
+/-- `run()` / `run_with_upper_bound(bound)` on an object in ANY state whose stored bound currently has the value
+    `bound` (after an aborted bounded run, after a completed one): the repaired loop continues from the stored
+    flow counter (`let mut flow = self.max_flow`, D24).  `runBounded` is the special case of a fresh object. -/
+def runBoundedAgain (d : Dinic) (fuel : Nat) (bound : Int) : Option (Dinic × Int) :=
+  let n := d.g.numNodes
+  if d.source ≥ n ∨ d.target ≥ n then none
+  else
+    let d0 := { d with parents := Array.replicate n 0, level := Array.replicate n INV }
+    match boundedLoop bound fuel d0 d.maxFlow with
+    | none => none
+    | some (d', flow, true) => some ({ d' with maxFlow := flow }, bound)
+    | some (d', flow, false) => some ({ d' with maxFlow := flow, finished := true }, min bound flow)
+
+/-- the harness' `rr k` history after a bounded run: run number `i` is `run()` (the stored bound keeps its
+    current value) for even `i` and `run_with_upper_bound(i32::MAX)` (a new bound) for odd `i` -/
+def rerunHistory (fuel : Nat) : Nat → Nat → Dinic → Int → Option (Dinic × Int)
+  | 0, _, d, b => some (d, b)
+  | k + 1, i, d, b =>
+    let b0 := if i % 2 == 0 then b else I32MAX
+    match runBoundedAgain d fuel b0 with
+    | none => none
+    | some (d', b') => rerunHistory fuel k (i + 1) d' b'
+
 /-! ### the step -/
 
 /-- everything `sub_step` computes before the solver runs: contracted ends, table, `current_id`,
